@@ -3,10 +3,11 @@
 from __future__ import annotations
 
 import ast
+import copy
 import re
 
 from ..cfg import cfg_of
-from ..core import seq, AnalysisError, ClassInfo, FuncInfo, call_name, dotted, unparse, walk_no_nested
+from ..core import seq, AnalysisError, ClassInfo, FuncInfo, call_name, dotted, inline_locals, strip_docstring, unparse, walk_no_nested
 from ..packs import ecc
 from ..report import Ctx
 from ..sigtemplate import AttrRoles
@@ -42,6 +43,74 @@ COLLECTORS = {
 }
 
 
+def _through_helper(c: ClassInfo, call: ast.AST) -> ast.AST:
+    """`self.m(args)` where m is a method of the class or of one of its bases whose body is a single `return <expr>`: the
+    returned expression with the arguments in place of the parameters (one level); any other node is returned as it is"""
+    if not (isinstance(call, ast.Call) and isinstance(call.func, ast.Attribute) and isinstance(call.func.value, ast.Name) and call.func.value.id == 'self'):
+        return call
+    if call.func.attr == 'audit' or any(isinstance(a, ast.Starred) for a in call.args) or any(k.arg is None for k in call.keywords):
+        return call
+    g = c.resolve(call.func.attr)
+    if g is None or 'staticmethod' in g.decorators() or 'classmethod' in g.decorators():
+        return call
+    body = strip_docstring(list(g.node.body))
+    if len(body) != 1 or not isinstance(body[0], ast.Return) or body[0].value is None:
+        return call
+    a = g.node.args
+    if a.vararg or a.kwarg:
+        return call
+    ps = [x.arg for x in a.posonlyargs + a.args][1:]
+    if len(call.args) > len(ps):
+        return call
+    bound = dict(zip(ps, call.args))
+    for k in call.keywords:
+        bound[k.arg] = k.value
+    defaults = dict(zip(reversed(ps), reversed(a.defaults)))
+    for kw, d in zip(a.kwonlyargs, a.kw_defaults):
+        if d is not None:
+            defaults[kw.arg] = d
+    names = set(ps) | {x.arg for x in a.kwonlyargs}
+    for k in names:
+        if k not in bound:
+            if k not in defaults:
+                return call
+            bound[k] = defaults[k]
+    if set(bound) - names:
+        return call
+
+    class Sub(ast.NodeTransformer):
+        def visit_Name(self, node):
+            return copy.deepcopy(bound[node.id]) if node.id in bound and isinstance(node.ctx, ast.Load) else node
+
+    return ast.copy_location(Sub().visit(copy.deepcopy(body[0].value)), call)
+
+
+def _may_reach_audit(prog, f: FuncInfo, depth: int = 4) -> bool:
+    """some call in the body of f is named audit or has a computed callee, or runs (as far as names resolve; a method on a receiver
+    of unknown class stands for every method of that name in the package) a function of the package for which this holds; what lies
+    deeper than `depth` calls counts as reached"""
+    seen = {f}
+    level = [f]
+    for d in range(depth + 1):
+        nxt = []
+        for g in level:
+            for x in walk_no_nested(g.node):
+                if not isinstance(x, ast.Call):
+                    continue
+                name = call_name(x)
+                if name is None or name in ('audit', 'getattr', 'eval', 'exec', 'map', 'methodcaller', 'attrgetter'):
+                    return True
+                tg = prog.resolve_call(g, x)
+                if not tg and isinstance(x.func, ast.Attribute):
+                    tg = prog.methods_named(name)
+                for h in tg:
+                    if h not in seen:
+                        seen.add(h)
+                        nxt.append(h)
+        level = nxt
+    return bool(level)
+
+
 def audit_descends(prog, c: ClassInfo, f: FuncInfo) -> tuple[bool, str]:
     """the override reaches the audit of every child on every normal path and returns what the children reported"""
     cfg = cfg_of(f.node)
@@ -56,9 +125,10 @@ def audit_descends(prog, c: ClassInfo, f: FuncInfo) -> tuple[bool, str]:
     reach = []  # (cfg node, returned names it feeds, covers_all)
     for n in walk_no_nested(f.node):
         # super().audit(database) / Expression.audit(self, database)
-        if isinstance(n, ast.Assign) and isinstance(n.value, ast.Call) and call_name(n.value) == 'audit':
-            recv = unparse(n.value.func.value) if isinstance(n.value.func, ast.Attribute) else ''
-            args = [unparse(a) for a in n.value.args] + [unparse(k.value) for k in n.value.keywords]
+        nv = _through_helper(c, n.value) if isinstance(n, ast.Assign) else None
+        if isinstance(n, ast.Assign) and isinstance(nv, ast.Call) and call_name(nv) == 'audit':
+            recv = unparse(nv.func.value) if isinstance(nv.func, ast.Attribute) else ''
+            args = [unparse(a) for a in nv.args] + [unparse(k.value) for k in nv.keywords]
             targets = [unparse(t) for t in (n.targets[0].elts if isinstance(n.targets[0], ast.Tuple) else [n.targets[0]])]
             if db not in args:
                 continue
@@ -90,7 +160,7 @@ def audit_descends(prog, c: ClassInfo, f: FuncInfo) -> tuple[bool, str]:
     # pure delegation: every return is `return <member>.audit(database)`
     deleg = []
     for r in rets:
-        v = r.value
+        v = _through_helper(c, r.value)
         if isinstance(v, ast.Call) and call_name(v) == 'audit' and isinstance(v.func, ast.Attribute) and db in [unparse(a) for a in v.args] + [unparse(k.value) for k in v.keywords]:
             recv = unparse(v.func.value)
             src = [a for a in walk_no_nested(f.node) if isinstance(a, ast.Assign) and isinstance(a.targets[0], ast.Tuple) and recv in [unparse(x) for x in a.targets[0].elts] and unparse(a.value) == 'self.selected()']
@@ -105,7 +175,7 @@ def audit_descends(prog, c: ClassInfo, f: FuncInfo) -> tuple[bool, str]:
             return False, f'returns {unparse(r.value)}'
         if isinstance(r.value, ast.Call):
             # return expr.audit(database)
-            if call_name(r.value) == 'audit':
+            if call_name(_through_helper(c, r.value)) == 'audit':
                 continue
             return False, f'returns {unparse(r.value)}'
         names = [unparse(x) for x in r.value.elts]
@@ -121,14 +191,147 @@ def audit_descends(prog, c: ClassInfo, f: FuncInfo) -> tuple[bool, str]:
     return True, 'children audited on every path; their findings are returned'
 
 
-def _stale_loop_variables(f, every: bool = False):
-    """(loop, names) for the for-loops of f whose variables are read after the loop without being assigned again"""
+_SET_METHODS = {'keys', 'issubset', 'issuperset', 'isdisjoint', 'difference', 'symmetric_difference', 'union', 'intersection'}
+_SET_BUILTINS = {'set': set, 'frozenset': frozenset, 'len': len, 'bool': bool, 'sorted': sorted, 'list': list, 'tuple': tuple, 'all': all, 'any': any, 'dict': dict}
+
+
+def _key_set_test(test: ast.expr, left: str, right: str):
+    """what a test over the keys of two dictionaries `left` and `right` decides, found by evaluating it over every pair of
+    small key sets (the expression may only use the two dictionaries, their key views, set operations and comparisons).
+    ('equality', value on equal sets, None): the test separates equal key sets from unequal ones;
+    ('weaker', value on equal sets, (keys_left, keys_right)): some unequal pair gets the answer of the equal pairs;
+    (None, None, None): not evaluable, order dependent, or not constant on equal key sets"""
+    import itertools
+
+    class Sub(ast.NodeTransformer):
+        def visit_Attribute(self, node):
+            txt = unparse(node)
+            if txt == left:
+                return ast.Name(id='_L_', ctx=ast.Load())
+            if txt == right:
+                return ast.Name(id='_R_', ctx=ast.Load())
+            return self.generic_visit(node)
+
+    e = ast.fix_missing_locations(ast.Expression(body=Sub().visit(copy.deepcopy(test))))
+    local = {x.id for c in ast.walk(e) if isinstance(c, ast.comprehension) for x in ast.walk(c.target) if isinstance(x, ast.Name)}
+    for x in ast.walk(e):
+        if isinstance(x, ast.Name) and x.id not in local and x.id not in _SET_BUILTINS and x.id not in ('_L_', '_R_'):
+            return None, None, None
+        if isinstance(x, ast.Attribute) and x.attr not in _SET_METHODS:
+            return None, None, None
+        if isinstance(x, (ast.Lambda, ast.NamedExpr, ast.Await, ast.Yield, ast.YieldFrom, ast.Starred, ast.JoinedStr)):
+            return None, None, None
+    if not any(isinstance(x, ast.Name) and x.id == '_L_' for x in ast.walk(e)) or not any(isinstance(x, ast.Name) and x.id == '_R_' for x in ast.walk(e)):
+        return None, None, None
+    code = compile(e, '<key-set-test>', 'eval')
+    universe = (1, 2, 3)
+    subsets = [frozenset(c) for k in range(len(universe) + 1) for c in itertools.combinations(universe, k)]
+    table = {}
+    for u in subsets:
+        for a in subsets:
+            vals = set()
+            for order_u in (sorted(u), sorted(u, reverse=True)):
+                for order_a in (sorted(a), sorted(a, reverse=True)):
+                    try:
+                        vals.add(bool(eval(code, {'__builtins__': {}, **_SET_BUILTINS, '_L_': dict.fromkeys(order_u), '_R_': dict.fromkeys(order_a)})))
+                    except Exception:  # noqa: the expression does not evaluate on dictionaries
+                        return None, None, None
+            if len(vals) != 1:
+                return None, None, None  # depends on the order of the keys: not a test of the key sets
+            table[u, a] = vals.pop()
+    on_equal = {v for (u, a), v in table.items() if u == a}
+    if len(on_equal) != 1:
+        return None, None, None
+    v0 = on_equal.pop()
+    wrong = sorted(((u, a) for (u, a), v in table.items() if u != a and v == v0), key=lambda p: (len(p[0]) + len(p[1]), sorted(p[0]), sorted(p[1])))
+    if not wrong:
+        return 'equality', v0, None
+    # prefer a witness with non-empty sets
+    wrong = [w for w in wrong if w[0] and w[1]] or wrong
+    return 'weaker', v0, wrong[0]
+
+
+def _verdict(r: ast.Return):
+    """True / False for `return True[, msg]` / `return False[, msg]`, else None"""
+    v = r.value
+    if isinstance(v, ast.Tuple) and v.elts:
+        v = v.elts[0]
+    return v.value if isinstance(v, ast.Constant) and isinstance(v.value, bool) else None
+
+
+def _loop_else_hoisted(stmts: list[ast.stmt]) -> list[ast.stmt]:
+    """the statements with `for ...: B else: E` written `for ...: B` followed by E when B has no break of that loop (E then runs
+    exactly once after the last iteration); shallow copies, the inner nodes are the nodes of the program"""
+    out = []
+    for s in stmts:
+        c = s
+        for field in ('body', 'orelse', 'finalbody'):
+            v = getattr(s, field, None)
+            if isinstance(v, list) and v and isinstance(v[0], ast.stmt):
+                nv = _loop_else_hoisted(v)
+                if any(a is not b for a, b in zip(nv, v)) or len(nv) != len(v):
+                    if c is s:
+                        c = copy.copy(s)
+                    setattr(c, field, nv)
+        if isinstance(c, (ast.For, ast.While)) and c.orelse and not _breaks(c):
+            tail = c.orelse
+            if c is s:
+                c = copy.copy(s)
+            c.orelse = []
+            out.append(c)
+            out.extend(tail)
+        else:
+            out.append(c)
+    return out
+
+
+def _breaks(lp) -> bool:
+    """a break that leaves this loop"""
+    todo = list(lp.body)
+    while todo:
+        n = todo.pop()
+        if isinstance(n, ast.Break):
+            return True
+        if isinstance(n, (ast.For, ast.While, ast.FunctionDef, ast.AsyncFunctionDef, ast.ClassDef, ast.Lambda)):
+            todo.extend(getattr(n, 'orelse', []) if isinstance(n, (ast.For, ast.While)) else [])
+            continue
+        todo.extend(ast.iter_child_nodes(n))
+    return False
+
+
+def _stale_loop_variables(f, every: bool = False, deciding_only: bool = True):
+    """(loop, names) for the for-loops of f whose variables are read after the loop without being assigned again (deciding_only: read
+    where the value decides something - a test, the receiver or an argument of a call - not where it only feeds a message)"""
     out = []
     for lp in [n for n in walk_no_nested(f.node) if isinstance(n, ast.For)]:
         inside = {id(x) for x in ast.walk(lp)}
         tvars = {x.id for x in ast.walk(lp.target) if isinstance(x, ast.Name)} - {'_'}
         restored = {x.id for x in walk_no_nested(f.node) if isinstance(x, ast.Name) and isinstance(x.ctx, ast.Store) and id(x) not in inside and seq(x) > seq(lp)}
-        stale = sorted({x.id for x in walk_no_nested(f.node) if isinstance(x, ast.Name) and isinstance(x.ctx, ast.Load) and x.id in tvars and id(x) not in inside and seq(x) > seq(lp) and x.id not in restored})
+        # reads that decide something: in a test, or in the receiver / an argument of a call; a read that only feeds a message or the log does not
+        deciding = set()
+        for x in walk_no_nested(f.node):
+            if id(x) in inside or seq(x) <= seq(lp):
+                continue
+            parts = []
+            if isinstance(x, (ast.If, ast.While, ast.IfExp, ast.Assert)):
+                parts = [x.test]
+            elif isinstance(x, ast.comprehension):
+                parts = list(x.ifs) + [x.iter]
+            elif isinstance(x, ast.For):
+                parts = [x.iter]
+            elif isinstance(x, ast.Call) and not unparse(x.func).startswith(('logger.', 'logging.', 'print', 'warnings.')) and not (isinstance(x.func, ast.Attribute) and x.func.attr in ('format', 'join')):
+                parts = [x.func] + list(x.args) + [k.value for k in x.keywords]
+            for p_ in parts:
+                todo = [p_]
+                while todo:
+                    y = todo.pop()
+                    if isinstance(y, ast.JoinedStr):
+                        continue
+                    if isinstance(y, ast.Name):
+                        deciding.add(id(y))
+                    todo.extend(ast.iter_child_nodes(y))
+        stale = sorted({x.id for x in walk_no_nested(f.node) if isinstance(x, ast.Name) and isinstance(x.ctx, ast.Load) and x.id in tvars and id(x) not in inside and seq(x) > seq(lp) and x.id not in restored
+                        and (id(x) in deciding or not deciding_only)})
         if stale or every:
             out.append((lp, stale))
     return out
@@ -137,7 +340,6 @@ def _stale_loop_variables(f, every: bool = False):
 #: obligations whose failure contradicts the property (rule, construct pattern, why); every other failure is 'not recognised'
 POSITIVE: list[tuple[str, str, str]] = [
     ('C12.R1', r'^MultipleExpression:override$', 'a catalog that inherits Expression.audit audits the children of the member, not the member'),
-    ('C12.R5', r':verdict$', 'a positive verdict is returned from inside a loop'),
     ('C12.R5', r':loop-variables@', 'a loop variable is read after its loop: one element is examined, not all'),
     ('C12.R8', r'^get_value_and_derivatives:order$', 'the formula is prepared (ids, draws) before it is audited'),
     ('C12.R6', r':self\.theC\.|:the_cpp\.', 'engine-call contract'),
@@ -178,7 +380,8 @@ def run(ctx: Ctx) -> None:
         else:
             ok, why = audit_descends(prog, c, f)
         # no call of any audit at all in an override of a node with children is a contradiction; a call in a form the rule does not follow is not
-        none_at_all = not ok and not any(isinstance(x, ast.Call) and call_name(x) == 'audit' for x in walk_no_nested(f.node))
+        # (a call the rule cannot follow, or one that runs a function of the package from which an audit is reached, may be that audit)
+        none_at_all = not ok and not _may_reach_audit(prog, f)
         ctx.add('C12.R1', f'{c.name}.audit', ok if (ok or none_at_all) else None, f, f'{c.name}.audit: {why}' + ('' if ok else (' - a fault below this node is not reported by the audit' if none_at_all else ' (the way the children are audited is not in the expected form)')), why, positive=none_at_all)
     ctx.floor('C12.R1', 8)
     # one name for two kinds of element is refused (obligation of C03.R3 on IdManager.prepare)
@@ -195,7 +398,9 @@ def run(ctx: Ctx) -> None:
     ctx.need(got3 == 1, 'the obligation of C03.R3 on the duplicate-name test')
     # MultipleExpression must override audit (the base version audits the children of the selected member, not the member)
     me = prog.cls('expressions.multiple_expressions', 'MultipleExpression')
-    ctx.add('C12.R1', 'MultipleExpression:override', 'audit' in me.methods, me, 'a catalog audits the selected member itself' if 'audit' in me.methods else 'MultipleExpression inherits Expression.audit: the own checks of the selected member are skipped', 'override')
+    own = me.resolve('audit')
+    own = own is not None and own.cls is not E  # its own override, or that of a base class placed before Expression
+    ctx.add('C12.R1', 'MultipleExpression:override', own, me, 'a catalog audits the selected member itself' if own else 'MultipleExpression inherits Expression.audit: the own checks of the selected member are skipped', 'override')
     # ---- R2
     for m, (leaf, op) in COLLECTORS.items():
         base = E.methods[m]
@@ -381,16 +586,22 @@ if not _OK:
             if not f.name.startswith('check_'):
                 continue
             for n in walk_no_nested(f.node):
-                if isinstance(n, ast.Return) and n.value is not None and unparse(n.value).startswith(('True', '(True')):
-                    inside = [lp for lp in walk_no_nested(f.node) if isinstance(lp, (ast.For, ast.While)) and any(x is n for x in ast.walk(lp))]
-                    ctx.add('C12.R5', f'{c.name}.{f.name}:verdict', not inside, (f.file, n.lineno), 'the positive verdict is issued after all loops have finished' if not inside else 'a positive verdict is returned from inside a loop: later elements are never examined', 'verdict')
+                if isinstance(n, ast.Return) and _verdict(n) is True:
+                    # inside a loop = in the statements that are repeated; the `else:` of a loop runs once, after the last iteration
+                    inside = [lp for lp in walk_no_nested(f.node) if isinstance(lp, (ast.For, ast.While)) and any(x is n for s_ in lp.body for x in ast.walk(s_))]
+                    # a contradiction when the loop is a test of every element (it can refuse one) and accepts while elements remain; a `while`
+                    # loop that draws the elements itself, or a loop that never refuses, may be a search: left open
+                    sure = any(isinstance(lp, ast.For) and any(isinstance(x, ast.Return) and _verdict(x) is False for s_ in lp.body for x in ast.walk(s_)) for lp in inside)
+                    ctx.add('C12.R5', f'{c.name}.{f.name}:verdict', (False if sure else None) if inside else True, (f.file, n.lineno),
+                            'the positive verdict is issued after all loops have finished' if not inside else 'a positive verdict is returned from inside a loop: later elements are never examined', 'verdict', positive=bool(sure))
     # a loop variable read after its loop stands for the last element only: the test that uses it examines one pair, not all
     for c in nm.classes.values():
         for f in c.methods.values():
             if not f.name.startswith('check_'):
                 continue
+            mentioned = {id(lp): st_ for lp, st_ in _stale_loop_variables(f, every=True, deciding_only=False)}
             for lp, stale in _stale_loop_variables(f, every=True):
-                ctx.add('C12.R5', f'{c.name}.{f.name}:loop-variables@{unparse(lp.target)}', not stale, (f.file, lp.lineno),
+                ctx.add('C12.R5', f'{c.name}.{f.name}:loop-variables@{unparse(lp.target)}', (None if mentioned.get(id(lp)) else True) if not stale else False, (f.file, lp.lineno),
                         'the variables of the loop are used inside it only' if not stale else f'{", ".join(stale)} (variable of the loop over {unparse(lp.iter)[:40]}) is read after the loop has ended: what follows examines the last element only, not every element', 'stale')
     cp = prog.func('nests', 'NestsForNestedLogit.check_partition')
     ok = body_is(cp.body, """
@@ -400,7 +611,9 @@ return (_VU and _VI, __MSG)
 """) is not None
     ctx.add('C12.R5', 'NestsForNestedLogit.check_partition', ok, cp, 'a partition needs both the union and the intersection test' if ok else 'check_partition no longer combines both tests', 'partition')
     ci_ = prog.func('nests', 'NestsForNestedLogit.check_intersection')
-    ok = has(ci_.node, """
+    ci_view = copy.copy(ci_.node)
+    ci_view.body = _loop_else_hoisted(ci_.node.body)
+    ok = has(ci_view, """
 for _I, _N in enumerate(self.tuple_of_nests):
     ___
     for _J, _O in enumerate(self.tuple_of_nests):
@@ -413,7 +626,7 @@ for _I, _N in enumerate(self.tuple_of_nests):
     if not ok:
         # the same test over every unordered pair
         for it in ('itertools.combinations(self.tuple_of_nests, 2)', 'combinations(self.tuple_of_nests, 2)', 'itertools.permutations(self.tuple_of_nests, 2)', 'permutations(self.tuple_of_nests, 2)'):
-            ok = ok or has(ci_.node, f"""
+            ok = ok or has(ci_view, f"""
 for _N, _O in {it}:
     _X = _N.intersection(_O)
     if _X:
@@ -421,7 +634,12 @@ for _N, _O in {it}:
         return (False, __MSG)
 """)
     adjacent = [unparse(lp.iter) for lp in walk_no_nested(ci_.node) if isinstance(lp, ast.For) and re.fullmatch(r'(itertools\.)?pairwise\(self\.tuple_of_nests\)|zip\(self\.tuple_of_nests(\[:-1\])?, self\.tuple_of_nests\[1:\]\)', unparse(lp.iter))]
-    if not ok and adjacent:
+    # ... and every intersection of two nests in the method is taken inside such a loop
+    meets = [x for x in walk_no_nested(ci_.node) if (isinstance(x, ast.Call) and call_name(x) == 'intersection') or (isinstance(x, ast.BinOp) and isinstance(x.op, ast.BitAnd) and 'alone' not in unparse(x))]
+    in_adjacent = {id(x) for lp in walk_no_nested(ci_.node) if isinstance(lp, ast.For) and unparse(lp.iter) in adjacent for s_ in lp.body for x in ast.walk(s_)}
+    other_loops = [lp for lp in walk_no_nested(ci_.node) if isinstance(lp, (ast.For, ast.comprehension)) and 'tuple_of_nests' in unparse(lp.iter) and unparse(lp.iter) not in adjacent and id(lp) not in in_adjacent
+                   and any(id(x) in {id(y) for y in ast.walk(lp)} for x in meets)]
+    if not ok and adjacent and meets and all(id(x) in in_adjacent for x in meets) and not other_loops:
         ctx.add('C12.R5', 'NestsForNestedLogit.check_intersection', False, ci_, f'the nests are intersected over {adjacent[0]}, i.e. each nest with the next one only: an alternative shared by two nests that are not neighbours in the '
                 'tuple (the first and the third, say) is not detected and the overlapping nests are accepted', 'pairs', positive=True)
     else:
@@ -475,14 +693,15 @@ return (_ERRS, _WARNS)
     ctx.add('C12.R7', 'Database._audit', ok, da_, 'every column must be numeric and no value may be NaN' if ok else 'the data audit no longer tests dtype and NaN for all columns', 'audit')
     # ---- LogLogit consistency tests
     ll = prog.find_class('LogLogit', 'expressions').methods['audit']
-    ok = has(ll.node, """
+    # the test whose one branch records the first error sends there exactly the unequal key sets of utilities and availabilities (the
+    # normal form writes a negative test `a != b` as `a == b` with the branches exchanged: both orientations are patterns)
+    ok = False
+    for arms, on_equal in (('    ___\n    _ERRS.append(__M1)\nelse:\n    ___', False), ('    ___\nelse:\n    ___\n    _ERRS.append(__M1)', True)):
+        bnd_ll = find(ll.node, f"""
 _ERRS = []
 ___
-if self.util.keys() != self.av.keys():
-    ___
-    _ERRS.append(__M1)
-else:
-    ___
+if __T:
+{arms}
 _ALTS = list(self.util)
 if database is None:
     _CH = np.array([self.choice.get_value_c()])
@@ -496,13 +715,35 @@ if _BAD.any():
 ___
 return (_ERRS, _WARNS)
 """)
-    # positive part: utilities and availabilities must have the same keys - the test is an (in)equality of the two key views
-    tests = [n for n in walk_no_nested(ll.node) if isinstance(n, (ast.If, ast.IfExp)) and 'self.util.keys()' in unparse(n.test) and 'self.av.keys()' in unparse(n.test)]
+        ok = ok or (bnd_ll is not None and _key_set_test(inline_locals(ll.node, bnd_ll['__T'][1]), 'self.util', 'self.av')[:2] == ('equality', on_equal))
+    # positive part: utilities and availabilities must have the same keys - the first test on both dictionaries tells equal key sets from
+    # unequal ones, however it is spelt (==, set(...) wrappers, symmetric difference, `a - b or b - a`, two inclusions ...)
+    def _both(e):
+        txt = unparse(inline_locals(ll.node, e))
+        return 'self.util' in txt and 'self.av' in txt
+
+    tests = sorted([n for n in walk_no_nested(ll.node) if isinstance(n, (ast.If, ast.IfExp)) and _both(n.test)], key=seq)
     for n in tests[:1]:
-        t = n.test
-        sym = isinstance(t, ast.Compare) and len(t.ops) == 1 and isinstance(t.ops[0], (ast.Eq, ast.NotEq)) and {unparse(t.left), unparse(t.comparators[0])} == {'self.util.keys()', 'self.av.keys()'}
-        ctx.add('C12.R1', 'LogLogit.audit:same-keys', sym, (ll.file, n.lineno), 'utilities and availabilities are required to have the same keys' if sym
-                else f'the consistency test {unparse(t)} is not an equality of the two key sets: an availability without utility (or conversely) is accepted', unparse(t), positive=True)
+        t = inline_locals(ll.node, n.test)
+        verdict, on_equal, witness = _key_set_test(t, 'self.util', 'self.av')
+        if verdict == 'equality':
+            ctx.add('C12.R1', 'LogLogit.audit:same-keys', True, (ll.file, n.lineno), 'utilities and availabilities are required to have the same keys', unparse(t))
+            continue
+        if verdict is None:
+            ctx.add('C12.R1', 'LogLogit.audit:same-keys', None, (ll.file, n.lineno), f'the consistency test {unparse(t)} is not in a form the rule can evaluate', unparse(t))
+            continue
+        # the test answers for some unequal key sets what it answers for equal ones.  A contradiction when nothing else in the branch taken
+        # by equal key sets (or after the test) compares the two dictionaries again
+        equal_branch = (n.orelse if not on_equal else n.body) if isinstance(n, ast.If) else [n.orelse if not on_equal else n.body]
+        other_branch = (n.body if not on_equal else n.orelse) if isinstance(n, ast.If) else [n.body if not on_equal else n.orelse]
+        skipped = {id(x) for b_ in other_branch for x in ast.walk(b_)} | {id(x) for x in ast.walk(n.test)}
+        again = [x for x in walk_no_nested(ll.node) if id(x) not in skipped and x is not n and isinstance(x, (ast.If, ast.IfExp, ast.While, ast.Assert, ast.comprehension))
+                 and any(_both(y) for y in ([x.test] if not isinstance(x, ast.comprehension) else x.ifs))]
+        u, a = witness
+        ctx.add('C12.R1', 'LogLogit.audit:same-keys', None if again else False, (ll.file, n.lineno),
+                f'the consistency test {unparse(t)} is not an equality of the two key sets: utilities for {sorted(u)} with availabilities for {sorted(a)} pass it as equal key sets do - '
+                + ('an availability without utility is accepted' if u < a else 'a utility without availability is accepted' if a < u else 'different alternatives on the two sides are accepted'),
+                unparse(t), positive=not again)
     ctx.add('C12.R1', 'LogLogit.audit:consistency', ok, ll, 'utilities/availabilities key mismatch and invalid choices are errors' if ok else 'consistency tests of LogLogit.audit changed', 'consistency')
     # ---- R8
     prep = [n for n in walk_no_nested(gv.node) if isinstance(n, ast.Expr) and unparse(n.value).startswith('self.prepare(')]
